@@ -14,7 +14,7 @@ RULE = ("fixed-buffer writer between two 16-byte guard zones: all histories of l
         "open-flag matrix on a real scratch directory, also with the target in a directory that does not exist (no CanOpenNew => neither file nor directory may appear); file-writer histories of writes and seeks (fixed + random) for every flag value x {absent, empty, 10-byte file}: position after every step and bytes on disk after close")
 PROVED = ("fixed writer model (u64 guards) = N specification on every op/argument/history; a refused op changes nothing and the "
           "buffer never changes size; a write touches exactly [pos, pos+n); growing writer = history fold (append, zero fill, "
-          "truncate); prefix refusal and acceptance; u16/u32 codecs invert, and for EVERY width w the w little-endian bytes written for v read back as v (as v mod 2^(8w) when v does not fit) and writing the value read from b reproduces b (C14_le_roundtrip, C14_le_inverse: mutual inverses); a size-prefixed container accepted by Write<SizeType> is returned by Read<SizeType> for every prefix width, signedness and element size at any stream position with the reader left exactly behind it (C14_prefixed_roundtrip), also through the u64-guarded MemoryReader model that GetReader() hands back (C14_prefixed_roundtrip_memory); copy loop transfers exactly the remaining bytes for "
+          "truncate) and the reader handed back over the content returns exactly the content and refuses anything longer (C14_dynamic_readback); prefix refusal and acceptance; u16/u32 codecs invert, and for EVERY width w the w little-endian bytes written for v read back as v (as v mod 2^(8w) when v does not fit) and writing the value read from b reproduces b (C14_le_roundtrip, C14_le_inverse: mutual inverses); a size-prefixed container accepted by Write<SizeType> is returned by Read<SizeType> for every prefix width, signedness and element size at any stream position with the reader left exactly behind it (C14_prefixed_roundtrip), also through the u64-guarded MemoryReader model that GetReader() hands back (C14_prefixed_roundtrip_memory); copy loop transfers exactly the remaining bytes for "
           "EVERY chunk size B>0 and source, and for EVERY reader backend: the loop run on a live object of any backend (copyLoopRd in Op2Model/StreamSys.lean, executed by the copy commands) hands the writer exactly the bytes from the cursor to the end of what the object exposes (C14_copy_every_backend, via the refinement Rd.step_abs); open-flag decision table equals the documented meaning on all 32 rows (decide); a writer opened with Append keeps the prior content as a prefix and ends as prior ++ bytes written for EVERY history of writes and seeks (C14_append_history, C14_append_preserves); L2: guards and cursor updates of MemoryWriter (Seek/SeekForward/SeekBackward/WriteImplementation) and DynamicMemoryWriter (SeekForward/SeekBackward/Seek/WriteImplementation) are re-translated from the C++ on every run (Gen/Streams.lean) and proved equal to the models' on all 64-bit values (C14_gen_*)")
 PARTIAL = ("what std::ofstream does with an open mode is OS/library behaviour: assumed (ofstreamKeeps) and checked on disk. The row "
            "'existing file, neither Truncate nor Append' carries no property clause (the flags say nothing about prior content).")
